@@ -139,7 +139,7 @@ namespace occa {
       const int dependencyCount = (int) dependencies.size();
       for (int i = 0; i < dependencyCount; ++i) {
         const std::string &dependency = dependencies[i];
-        dependencyHashes[dependency] = hashFile(dependency);
+        dependencyHashes[dependency] = preprocessor.getDependencyHash(dependency);
       }
     }
     //==================================
